@@ -16,6 +16,13 @@ CHECKS = {
             'identity of the result, part index, carried exception class, catchability, path attribute and the access log are compared with a reference walk.',
             'Holds for the enumerated alphabet and bounds only; reference walk encodes the reading in DESIGN.md 3/C01; traceback formatting is stubbed (messages are C05).',
             '3/C01'),
+    'C02': ('model_checking',
+            'bounded exhaustive enumeration of T operation sequences x targets executed on the real glom against plain Python operators',
+            'Every sequence of length <= 3 (thorough: 4) over ~80 operation instances (attribute, item, slice, nested T / Spec / container arguments, '
+            'calls, ten binary operators x five operands, two unary operators) x six targets, extended while the prefix succeeds, is evaluated by glom and by '
+            'the same chain of Python operators; value (type+repr, identity for existing objects), failing position and carried exception class are compared.',
+            'Operands and intermediate values are small; a failing call step only has to surface the callee exception class; T inside slice objects not covered.',
+            '3/C02'),
 }
 
 NOT_YET = {}
